@@ -377,6 +377,7 @@ func execSv(toks []string) string {
 	}
 	var out []string
 	sent := map[uint32]int{} // request body bytes sent per stream (position of the pattern)
+	synSeen := map[uint32]bool{}
 	for _, group := range toks[1:] {
 		// a group `a+b+c` is a BURST: the frames are written back to back, quiescence is awaited once
 		for _, ev := range strings.Split(group, "+") {
@@ -398,7 +399,12 @@ func execSv(toks []string) string {
 				// S id,fin[,method,cl]  method 0 POST 1 GET 2 HEAD (default: POST, GET with FIN);
 				// cl 0 = no Content-Length, 1 = "abc", 2 = "-5", k+10 = the number k
 				s := &spdy.SynStreamFrame{StreamId: spdy.StreamId(n[0]), Headers: http.Header{}}
-				sent[n[0]] = 0 // a request body starts here (DATA before the SYN_STREAM is refused, not delivered)
+				if !synSeen[n[0]] {
+				// a request body starts here (DATA before the first SYN_STREAM of the id is refused, not delivered;
+				// a repeated SYN_STREAM never starts a second body)
+				synSeen[n[0]] = true
+				sent[n[0]] = 0
+			}
 				meth := "POST"
 				if n[1] != 0 {
 					meth = "GET"
